@@ -13,6 +13,7 @@ import MW.Lemmas.Iso
 import MW.Props.C01
 import MW.Model.Locks
 import MW.Gen.Locks
+import MW.Gen.LockBal
 import MW.Lemmas.Locks
 import MW.Lemmas.IsoBridge
 namespace MW.Props.C17
@@ -281,6 +282,16 @@ theorem lockset_safe (a b : Access) (ha : a ∈ MW.Gen.Locks.table) (hb : b ∈ 
     (hc : conflicting a b = true) :
     commonLock a b = true ∨ ∀ ra ∈ a.roles, ∀ rb ∈ b.roles, unordered a b ra rb = false :=
   MW.Lemmas.Locks.tableOk_sound _ lockset_table_ok a b ha hb hc
+
+/-- lock_balance: in every function and function literal of masswallet, keystore, txmgr, db/ldb and api (regenerated by a
+    path-sensitive walk over the statement tree: branches followed separately, loop bodies must leave the lock state as
+    they found it) every mutex that is locked is released on EVERY path out of the function – by a deferred unlock or
+    by an explicit unlock before each return – with exactly one deliberate hand-over: `BeginTx` returns holding the
+    writer mutex `muTr`, which `Commit` / `Rollback` release (C11's single-writer rule). A lock left held on an early
+    return (seed C19-3: filterTx kept memMtx, the follower blocked for ever) makes this list longer. -/
+theorem lock_balance : MW.Gen.LockBal.leaks = ["ldb.LevelDB.BeginTx:l.muTr:return"] := by decide
+/-- … and the walk saw the code: at least 50 `Lock()` / `RLock()` sites in at least 40 functions -/
+theorem lock_balance_nonvacuous : MW.Gen.LockBal.lockSites ≥ 50 ∧ MW.Gen.LockBal.funcsWithLocks ≥ 40 := by decide
 
 /-- the hand-shake question of the task: `h.bestBlock` is read and `h.expiredMempool` is written by the
     worker (asyncImport) without memMtx – every such access lies inside a suspend()…resume() window, so the
